@@ -265,7 +265,31 @@ class TotalWorld(OracleWorld):
         tpl = st.ext.get("tpl:%r" % (sym.name,))
         if tpl is not None and variant == 1 and i == 0:
             return tpl
-        return OracleWorld.fresh_field(self, st, sym, variant, i, ty)
+        v = OracleWorld.fresh_field(self, st, sym, variant, i, ty)
+        # an integer inside an element of a folded table static lies between the table's least and greatest
+        # code point (so `end + 1` on a row of a real table cannot overflow)
+        if isinstance(v, Sym) and v.ty == "u32":
+            root = sym.name
+            while isinstance(root, tuple) and root and root[0] in ("field", "lo", "hi") and len(root) > 1:
+                root = root[1]
+            b = st.facts.get(("elem-bounds", root))
+            if b is not None:
+                st.facts[("rng", v.name)] = (b,)
+        return v
+
+    def table_bounds(self, tab):
+        cache = self.__dict__.setdefault("_table_bounds", {})
+        if "all" not in cache:
+            from . import tables
+
+            try:
+                cache["all"] = tables.all_tables(self.prog)[0]
+            except Exception:
+                cache["all"] = {}
+        rows = cache["all"].get(tab)
+        if not rows:
+            return None
+        return (min(r[0] for r in rows), max(r[1] for r in rows))
 
     def _inv_ok(self, st, tpl, arr):
         """Does the arriving value satisfy what the widened value promises (provenance, `< count`)?"""
@@ -369,13 +393,21 @@ class TotalWorld(OracleWorld):
             return km is not None and k <= km
         return False
 
+    def _elem_bounds(self, st, name):
+        """Bounds of an integer that lives inside an element of a folded table static."""
+        root = name
+        while isinstance(root, tuple) and root and root[0] in ("field", "lo", "hi") and len(root) > 1:
+            root = root[1]
+        return st.facts.get(("elem-bounds", root))
+
     def lower_bound(self, st, v):
         if isinstance(v, I):
             return v.v
         if isinstance(v, Sym):
             b, k = lin_parts(v)
             r = rng_get(st, Sym(b, v.ty))
-            return r[0][0] + k
+            eb = self._elem_bounds(st, b) if v.ty == "u32" else None
+            return max(r[0][0], eb[0] if eb else r[0][0]) + k
         return None
 
     def upper_bound(self, st, v):
@@ -384,7 +416,8 @@ class TotalWorld(OracleWorld):
         if isinstance(v, Sym):
             b, k = lin_parts(v)
             r = rng_get(st, Sym(b, v.ty))
-            return r[-1][1] + k
+            eb = self._elem_bounds(st, b) if v.ty == "u32" else None
+            return min(r[-1][1], eb[1] if eb else r[-1][1]) + k
         return None
 
     def binop_hook(self, st, op, a, b):
@@ -778,6 +811,11 @@ class TotalWorld(OracleWorld):
         key = lambda b: ("int", 0) if b is None else (("int", b.v) if isinstance(b, I) else ("val", b))
         return Str(("slice", tag, key(lo), key(hi) if hi is not None else ("end",)))
 
+    def str_split_off(self, m, st, s, at):
+        """String::split_off panics unless `at` is a char boundary: the same obligation as split_at."""
+        head, tail = self.split_at(m, st, s, at).fields
+        return head.loc[1], tail.loc[1]
+
     def replace_range(self, m, st, s, rng, content, callee):
         """String::replace_range panics unless both bounds are char boundaries: the same obligation as slicing.
         Afterwards the string is a different one: offsets taken before no longer speak about it."""
@@ -880,7 +918,11 @@ def _bsearch(w, m, st, callee, args, term):
         s_ = w.prog.statics.get(tab)
         mm = re.match(r"^\[(.*);\s*\d+\]$", s_["ty"]) if s_ else None
         if mm:
-            elem = Ref(("val", ty_.fresh(w.prog, mm.group(1), ("elem", w.n(st)))))
+            hint = ("elem", w.n(st))
+            b_ = w.table_bounds(tab)
+            if b_ is not None:
+                st.facts[("elem-bounds", hint)] = b_
+            elem = Ref(("val", ty_.fresh(w.prog, mm.group(1), hint)))
     w.probe(m, st, clo, [elem if elem is not None else _elem_of(w, m, st, clo, "elem")])
     idx = Sym(("bsidx", w.n(st)), "usize")
     if ans == "Ok":
@@ -902,6 +944,23 @@ def _partition_point(w, m, st, callee, args, term):
             elem = Ref(("val", ty_.fresh(w.prog, mm.group(1), ("elem", w.n(st)))))
     w.probe(m, st, clo, [elem if elem is not None else _elem_of(w, m, st, clo, "elem")])
     return Sym(("ppidx", w.n(st)), "usize")
+
+
+def _slice_edge(w, m, st, callee, args, term):
+    """table.first() / table.last() on a folded table static: the concrete row (a lookup helper's range
+    pre-check is then decided exactly on the key's intervals)."""
+    from .rules import common as _c
+
+    path = _c.static_path_of(m, st, args[0])
+    if path is None:
+        return None
+    try:
+        row = _c.edge_row(w.prog, path, callee["name"])
+    except AnalysisError:
+        return None
+    if row is None:
+        return ip.none()
+    return ip.some(Ref(("val", row)))
 
 
 def _opt_filter(w, m, st, callee, args, term):
@@ -978,6 +1037,8 @@ SPECIAL = {
     "core::slice::<impl [T]>::get": _slice_get,
     "core::slice::<impl [T]>::partition_point": _partition_point,
     "core::option::Option::<T>::filter": _opt_filter,
+    "core::slice::<impl [T]>::first": _slice_edge,
+    "core::slice::<impl [T]>::last": _slice_edge,
     "core::iter::traits::iterator::Iterator::for_each": _for_each,
     "core::iter::range::<impl core::iter::traits::iterator::Iterator for core::ops::range::RangeInclusive<A>>::next": _ri_next,
     "core::str::<impl str>::char_indices": _char_indices,
